@@ -30,6 +30,15 @@ func (d *ParserCustomData) PrepareCustomDice(p *parser) bool {
 	}
 
 	d.pendingCustomDice = match
+	// 在谓词中就前移游标: 谓词在前瞻(&expr)模式下也会执行，而 ConsumeCustomDice 这个动作在前瞻时会被跳过。
+	// 若只在动作里消费文本，被前瞻保护的结构(括号、数组、函数参数、赋值右侧、模板等)中的自定义骰点会在前瞻阶段
+	// 被看作"匹配了空串"，从而整体解析失败或把后文留给剩余文本。
+	if match.byteLen > 0 {
+		targetOffset := match.startOffset + match.byteLen
+		for p.pt.offset < targetOffset {
+			p.read()
+		}
+	}
 	return true
 }
 
@@ -70,6 +79,14 @@ func (d *ParserCustomData) CommitCustomDice() any {
 		compiled.text = compiled.groups[0]
 	}
 
+	// 游标在 PrepareCustomDice 中已前移，detailStart 记录到的起点是匹配文本的末尾，这里改回真正的起点
+	if d.codeIndex > 0 && d.code[d.codeIndex-1].T == typeDetailMark {
+		if span, ok := d.code[d.codeIndex-1].Value.(BufferSpan); ok && int(span.Begin) == match.startOffset+match.byteLen {
+			span.Begin = IntType(match.startOffset)
+			d.code[d.codeIndex-1].Value = span
+		}
+	}
+
 	d.WriteCode(typeCustomDice, compiled)
 	return nil
 }
@@ -79,7 +96,9 @@ func (d *ParserCustomData) ensurePendingCustomDice(p *parser) *customDiceMatch {
 		return nil
 	}
 
-	if d.pendingCustomDice != nil && d.pendingCustomDice.startOffset == p.pt.offset {
+	if d.pendingCustomDice != nil && (d.pendingCustomDice.startOffset == p.pt.offset ||
+		d.pendingCustomDice.startOffset+d.pendingCustomDice.byteLen == p.pt.offset) {
+		// 第二种情况: PrepareCustomDice 已经前移了游标
 		return d.pendingCustomDice
 	}
 
